@@ -513,3 +513,166 @@ def printing_alike(ctx):
                 out.append((fmt % args, o, 'printing-alike'))
                 out.append((fmt % tuple(reversed(args)), o, 'printing-alike'))
     return out
+
+# ----------------------------------------------------------------------------
+# batch 12: what is remembered between neighbouring comparisons, what is scanned outside the lexer
+# ----------------------------------------------------------------------------
+def _obj_from_paths(pv):
+    root = {}
+    for p, v in pv.items():
+        d = root
+        segs = p.split('.')
+        for s_ in segs[:-1]:
+            d = d.setdefault(s_, {})
+        d[segs[-1]] = v
+    return obj(root)
+
+REUSE_PATHS = ['a.b', 'a.c', 'ab.b', 'ab.y', 'a.x', 'user.addr.city', 'user.address.zip', 'user.addr.zip', 'k1.v', 'k10.v', 'c', 'x', 'n.b', 'n.a.b', 'a.bb', 'user.addr.c.d']
+
+def _reuse_leaves(ctx):
+    """leaves over REUSE_PATHS on an object that gives every path its own integer: (text, path, truth on the full object)"""
+    leaves = []
+    for i, p in enumerate(REUSE_PATHS):
+        v = 3 + i
+        leaves += [('%s eq %d' % (p, v), p), ('%s gt %d' % (p, v), p), ('%s pr' % p, p), ('%s lt 1000' % p, p), ('%s in [%d]' % (p, v), p), ('%s ne %d' % (p, v + 1), p), ('not (%s pr)' % p, p)]
+    return leaves
+
+def path_reuse(ctx):
+    """comparisons on the same path with another leaf in between, paths whose text (not segments) is a prefix of the next:
+    a remembered operand / parent object must not leak from one leaf to the next.  (text, obj, fam, (component texts, fn))"""
+    out = []
+    full = {p: I(3 + i) for i, p in enumerate(REUSE_PATHS)}
+    objs = [_obj_from_paths(full),
+            _obj_from_paths({p: v for p, v in full.items() if not p.startswith('ab.') and not p.startswith('user.address')}),
+            _obj_from_paths({p: (I(100) if p in ('c', 'n.b', 'ab.b') else v) for p, v in full.items()})]
+    leaves = _reuse_leaves(ctx)
+    AND, OR = (lambda a, b: a and b), (lambda a, b: a or b)
+    conn = {'and': AND, 'or': OR}
+    rng = ctx.rng
+    # every ordered pair of leaves
+    pairs = [(l1, l2) for l1 in leaves for l2 in leaves if l1[1] != l2[1]]
+    for (l1, l2) in (pairs if not ctx.quick else rng.sample(pairs, 2500)):
+        c1 = rng.choice(['and', 'or'])
+        o = rng.choice(objs)
+        out.append(('%s %s %s' % (l1[0], c1, l2[0]), o, 'path-reuse', ([l1[0], l2[0]], conn[c1])))
+    # A, B, A' : the same path again after another leaf
+    for _ in range(ctx.n(2500, 40000)):
+        l1 = rng.choice(leaves)
+        l3 = rng.choice([l for l in leaves if l[1] == l1[1]])
+        l2 = rng.choice([l for l in leaves if l[1] != l1[1]])
+        c1, c2 = rng.choice(['and', 'or']), rng.choice(['and', 'or'])
+        o = rng.choice(objs)
+        form = rng.randrange(4)
+        if form == 0:
+            t, fn = '%s %s %s %s %s' % (l1[0], c1, l2[0], c2, l3[0]), (lambda a, b, c, c1=c1, c2=c2: conn[c2](conn[c1](a, b), c))
+        elif form == 1:
+            t, fn = '%s %s (%s %s %s)' % (l1[0], c1, l2[0], c2, l3[0]), (lambda a, b, c, c1=c1, c2=c2: conn[c1](a, conn[c2](b, c)))
+        elif form == 2:
+            t, fn = '(%s) %s not (%s) %s (%s)' % (l1[0], c1, l2[0], c2, l3[0]), (lambda a, b, c, c1=c1, c2=c2: conn[c2](conn[c1](a, not b), c))
+        else:
+            t, fn = 'not (%s %s %s) %s %s' % (l1[0], c1, l2[0], c2, l3[0]), (lambda a, b, c, c1=c1, c2=c2: conn[c2](not conn[c1](a, b), c))
+        out.append((t, o, 'path-reuse', ([l1[0], l2[0], l3[0]], fn)))
+    # the documented range idiom with a presence test in the middle, on every nested path
+    for p in REUSE_PATHS:
+        v = full[p][1]
+        for q in REUSE_PATHS + ['zz', 'zz.y']:
+            if q == p:
+                continue
+            for o in objs:
+                out.append(('%s gt %d and %s pr and %s lt %d' % (p, v - 1, q, p, v + 1), o, 'path-reuse',
+                            (['%s gt %d' % (p, v - 1), '%s pr' % q, '%s lt %d' % (p, v + 1)], lambda a, b, c: a and b and c)))
+    return out
+
+ESC_LITS = ['"C:\\\\"', '"a\\""', '"\\\\\\\\"', '"x\\\\\\""', '"\\\\"', '"(\\\\"', '")"', '"(("', '"a) and (b"', '"\\\\" ', '"c:\\\\dir\\\\"', '"\\")"', '"[\\\\]"']
+ESC_VALUES = ['C:\\', 'C:\\\\', 'a"', 'a\\"', '\\\\', '\\', 'x\\"', '(\\', ')', '((', 'a) and (b', 'c:\\dir\\', 'c:\\\\dir\\\\', '")', '\\")', '[\\]', 'bob']
+
+def escape_tails(ctx):
+    """literals that end in an escaped backslash / quote, or hold parentheses, next to real parentheses: only the lexer knows where a
+    literal ends.  (text, obj, fam, (component texts, fn))"""
+    out = []
+    forms = [('(dir eq %s) and (user eq "bob")', 2, lambda a, b: a and b), ('n eq 2 or (dir sw %s)', 2, lambda a, b: a or b), ('not (dir eq %s) or (n eq 2)', 2, lambda a, b: (not a) or b),
+             ('(dir eq %s and n eq 2)', 2, lambda a, b: a and b), ('dir eq %s and (n eq 2)', 2, lambda a, b: a and b), ('dir in [%s, "z"] and (n eq 2)', 2, lambda a, b: a and b),
+             ('(dir eq %s)', 1, lambda a: a), ('((dir ew %s) or (user eq "bob")) and (n eq 2)', 3, lambda a, b, c: (a or b) and c), ('(dir eq %s or dir eq "q") and not (n eq 3)', 3, lambda a, b, c: (a or b) and not c)]
+    comps_of = {0: lambda L: ['dir eq %s' % L, 'user eq "bob"'], 1: lambda L: ['n eq 2', 'dir sw %s' % L], 2: lambda L: ['dir eq %s' % L, 'n eq 2'], 3: lambda L: ['dir eq %s' % L, 'n eq 2'],
+                4: lambda L: ['dir eq %s' % L, 'n eq 2'], 5: lambda L: ['dir in [%s, "z"]' % L, 'n eq 2'], 6: lambda L: ['dir eq %s' % L], 7: lambda L: ['dir ew %s' % L, 'user eq "bob"', 'n eq 2'],
+                8: lambda L: ['dir eq %s' % L, 'dir eq "q"', 'n eq 3']}
+    fns = {1: lambda a, b: b or a}
+    for L in ESC_LITS:
+        L = L.strip()
+        for fi, (fmt, k, fn) in enumerate(forms):
+            comps = comps_of[fi](L)
+            if fi == 1:
+                fn = lambda a, b: a or b
+            for v in (ESC_VALUES if not ctx.quick else ctx.rng.sample(ESC_VALUES, 6)):
+                for n in (2, 3):
+                    o = obj({'dir': S(v), 'user': S('bob' if n == 2 else 'eve'), 'n': I(n)})
+                    out.append((fmt % L, o, 'escape-tail', (comps, fn)))
+    # two such literals in one rule
+    for L1 in ESC_LITS[:6]:
+        for L2 in ESC_LITS[:8]:
+            for v in ESC_VALUES[:8]:
+                o = obj({'dir': S(v), 'user': S(v), 'n': I(2)})
+                out.append(('(dir eq %s) or (user eq %s)' % (L1.strip(), L2.strip()), o, 'escape-tail', (['dir eq %s' % L1.strip(), 'user eq %s' % L2.strip()], lambda a, b: a or b)))
+    return out
+
+def keyword_keys(ctx):
+    """rules whose attribute name is spelled like a reserved word, on objects that HAVE that key: every entry point must agree"""
+    from .gen import KEYWORDS
+    out = []
+    for k in KEYWORDS:
+        objs = [obj({k: I(1), 'a': {k: I(1)}}), obj({k: {'a': I(1)}, 'a': I(1)}), obj({k: S('s'), k + 'x': I(1)}), obj({k: I(21)})]
+        for t in ['%s eq 1' % k, '%s ge 18' % k, '%s pr' % k, '%s eq "s"' % k, '%s.a eq 1' % k, 'a.%s eq 1' % k, '%s == 1' % k, '%s in [1]' % k, '%s ne 2' % k, '%s lt 100' % k,
+                  ' %s eq 1' % k, '%s eq 1 ' % k, '%s  eq 1' % k, '%sx eq 1' % k, '%s EQ 1' % k, '%s gt 0' % k, '%s le 21' % k, 'a eq 1 and %s eq 1' % k, '(%s eq 1)' % k, 'not (%s eq 1)' % k]:
+            for o in objs:
+                out.append((t, o, 'keyword-keys'))
+    return out
+
+OPERATOR_LITS = [' && ', ' || ', ' = ', ' <> ', 'a && b', 'a || b', 'PATH = /bin', 'x <> y', ' == ', ' != ', ' and ', ' or ', 'not (', ' pr', 'x eq 1', '//', '/*', '--', '#', ';', ' AND ', '\' or 1=1 --', '${x} = 1',
+                 'a = b', 'if (a && b) { }', 'a||b', 'a&&b', '<>', ' <= ', ' >= ', ' < ', ' > ', ' in [1]', ' eq ', '" eq "']
+
+def operator_literals(ctx):
+    """operators of this and of other languages INSIDE string literals: nothing may scan the raw text for them"""
+    out = []
+    for lit in OPERATOR_LITS:
+        L = '"%s"' % lit.replace('\\', '\\\\').replace('"', '\\"')
+        for v in [lit, 'a' + lit + 'b', 'zz', lit.strip()]:
+            o = obj({'x': S(v), 'y': I(1), 'q': S(lit)})
+            for t in ['x co %s' % L, 'x eq %s' % L, 'x sw %s' % L, 'q in [%s, "zz"]' % L, 'q in ["x <> y",%s]' % L, 'x eq %s and y eq 1' % L, 'y eq 2 or x co %s' % L, '(x ew %s)' % L, 'not (x eq %s)' % L]:
+                out.append((t, o, 'operator-in-literal'))
+    return out
+
+WS_PAIRS = [('a b', 'a  b'), ('a b', 'a\tb'), ('a b', 'a\u00a0b'), ('a b', 'a\nb'), (' a', 'a'), ('a ', 'a'), ('', ' '), ('a  b', 'a   b'), ('a\r\nb', 'a\nb'), ('a b c', 'a b  c'), ('\t', ' ')]
+
+def law_operands(ctx):
+    """(A, B, C, object) for the algebraic laws: sibling operands that differ only inside a literal, paths whose text is a prefix of
+    the neighbour's, the same path on both sides of another leaf"""
+    out = []
+    for (l1, l2) in WS_PAIRS:
+        q = lambda s_: '"%s"' % s_.replace('\\', '\\\\').replace('"', '\\"')
+        for op in ('eq', 'co', 'sw', 'ne'):
+            A, B = 'x %s %s' % (op, q(l1)), 'x %s %s' % (op, q(l2))
+            for v in (l1, l2, 'zz'):
+                o = obj({'x': S(v), 'k': I(1), 't': I(1)})
+                for C in (A, B, 'k eq 1', 'zz pr'):
+                    out.append((A, B, C, o, 'law-literal-siblings'))
+                    out.append((B, A, C, o, 'law-literal-siblings'))
+                    out.append((C, A, B, o, 'law-literal-siblings'))
+        A, B = 'x in [%s]' % q(l1), 'x in [%s]' % q(l2)
+        for v in (l1, l2):
+            out.append((A, B, 'k eq 1', obj({'x': S(v), 'k': I(1)}), 'law-literal-siblings'))
+    full = {p: I(3 + i) for i, p in enumerate(REUSE_PATHS)}
+    o_full = _obj_from_paths(full)
+    leaves = [l for l in _reuse_leaves(ctx) if ' gt ' not in l[0] or True]
+    rng = ctx.rng
+    for _ in range(ctx.n(700, 8000)):
+        A, B, C = rng.choice(leaves)[0], rng.choice(leaves)[0], rng.choice(leaves)[0]
+        out.append((A, B, C, o_full, 'law-path-neighbours'))
+    for (p, q_) in [('user.addr.city', 'user.address.zip'), ('a.x', 'ab.y'), ('k1.v', 'k10.v'), ('a.b', 'a.bb'), ('a.b', 'ab.b'), ('n.b', 'n.a.b'), ('user.addr.zip', 'user.addr.c.d')]:
+        for (f1, f2) in [('%s eq %d', '%s eq %d'), ('%s pr', '%s eq %d'), ('%s eq %d', '%s pr'), ('%s lt %d', '%s ne %d')]:
+            mk = lambda f, pp, d=0: (f % (pp, full[pp][1] + d)) if '%d' in f else (f % pp)
+            A, B = mk(f1, p, 1 if ' lt ' in f1 else 0), mk(f2, q_, 1 if ' ne ' in f2 else 0)
+            for C in ('c eq 5000', 'x pr', A):
+                out.append((A, B, C, o_full, 'law-path-neighbours'))
+                out.append((B, A, C, o_full, 'law-path-neighbours'))
+                out.append((C, A, B, o_full, 'law-path-neighbours'))
+    return out
